@@ -12,7 +12,7 @@ RULE = (
     "canonical encoder and entered into a run-wide bytes->entry-set map (injectivity); from_list(as_list) identity; get_obj for "
     "every prefix.  B (on disk): generated trees staged with checksum_jobs in {1,2,8}, >= 2 files above the large-file threshold "
     "in one directory (unordered parallel hashing path), _get_hashes with thresholds {0,1,2^21}, a LocalFileSystem whose walk "
-    "order is shuffled, the directory named with a trailing separator, a filesystem whose reads fail once mid-file with a transient errno (staging must raise or give the canonical id, and the state must not remember a wrong one), state cold / warm / warm after touching files, the first staging materialised only after all other builds; every sub-directory compared with a direct build.  "
+    "order is shuffled, the directory named with a trailing separator or through //, /./, /../ spellings, a filesystem whose reads fail once mid-file with a transient errno (staging must raise or give the canonical id, and the state must not remember a wrong one), state cold / warm / warm after touching files, the first staging materialised only after all other builds; every sub-directory compared with a direct build.  "
     "non-trivial = >= 2 entries; distinct = (entry set) resp. (tree, configuration)"
 )
 ASSUMPTIONS = [
@@ -257,7 +257,11 @@ def run_shard(ctx):
                     finally:
                         res.count("flaky_read_builds")
                 else:
-                    _st, meta, obj = build(o, p + os.sep if label == "trailing-separator" else p, fs, "md5", checksum_jobs=jobs)
+                    sp_ = p
+                    if label == "trailing-separator":
+                        # a legal non-canonical spelling of the same directory
+                        sp_ = rng.choice([p + os.sep, p + os.sep, d + "//data", d + "/./data", p + "/../data"])
+                    _st, meta, obj = build(o, sp_, fs, "md5", checksum_jobs=jobs)
                 if label == "jobs=1":
                     first_staging = _st
                 objs.append(obj)
